@@ -178,6 +178,7 @@ pub fn parse_error_code(e: &ParseError) -> &'static str {
         ParseError::Unsupported(_) => "parse-unsupported",
         ParseError::UnexpectedToken(_) => "parse-unexpected-token",
         ParseError::UnexpectedError(_) => "parse-unexpected-error",
+        ParseError::IncompleteStatement(_) => "parse-incomplete-statement",
         ParseError::UnknownDirective(_) => "parse-unknown-directive",
         ParseError::CyclicDependency(_) => "parse-cyclic-dependency",
         ParseError::FileNotFound(_) => "parse-file-not-found",
